@@ -3,7 +3,9 @@ import random, re
 from .. import common, corpus, suite_translate as st, gen_table as G
 
 THEOREMS = ["Lou.C03.iter_mu", "Lou.C03.run_bound", "Lou.C03.pass_loop_bound", "Lou.C03.run_more_fuel",
-            "Lou.C03.once_per_position", "Lou.C03.pingpong_not_monotone", "Lou.C03.pingpong_unbounded"]
+            "Lou.C03.once_per_position", "Lou.C03.pingpong_not_monotone", "Lou.C03.pingpong_unbounded",
+            "Lou.C06Pass.fwdStage_total", "Lou.C06Pass.backStage_total", "Lou.C06Pass.fwdTest_bounds", "Lou.C06Pass.backTest_bounds",
+]
 
 CLAIM = dict(
     text=("Kernel-checked: pass_loop_bound — for ANY rule selection and ANY actions that never move the position backwards "
